@@ -34,6 +34,7 @@ type HarnessCfg struct {
 	YieldMode      string                    `json:"yield_mode"`
 	ClockMode      string                    `json:"clock_mode"`
 	MaxPreempt     int                       `json:"max_preempt"`      // overrides the check-level bound for this harness
+	MaxAlloc       int                       `json:"max_alloc"`        // largest make() length the engine models (default 1<<18)
 	MaxPreemptTier map[string]int            `json:"max_preempt_tier"` // tier -> bound (overrides max_preempt)
 	ReplayOptional bool                      `json:"replay_optional"`  // model-level counterexamples (crash durability) count even if a native run cannot exhibit them
 }
@@ -232,6 +233,10 @@ func main() {
 		}
 		P.ExplicitYield = cfg.YieldMode == "explicit" || hc.YieldMode == "explicit"
 		P.MaxPreempt = basePreempt
+		P.MaxAlloc = 1 << 18
+		if hc.MaxAlloc > 0 {
+			P.MaxAlloc = hc.MaxAlloc
+		}
 		if v, ok := cfg.MaxPreemptTier[*tier]; ok {
 			P.MaxPreempt = v
 		}
